@@ -142,7 +142,8 @@ fn four_reps_f64(d: &mut Draw) -> Outcome {
     use cgmath::{Point3, Transform};
     let u = f_unit_quat(d);
     let q = mk_q(&u);
-    let len = d.f64_log(1e-12, 1e12);
+    // any length at which v and its image are finite normal vectors (their *squared* length need not be)
+    let len = match d.int(0, 3) { 0 => d.f64_log(1e-300, 1e-100), 1 => d.f64_log(1e100, 1e300), _ => d.f64_log(1e-12, 1e12) };
     let axis = fnormalize3(&[u[1], u[2], u[3]]);
     let kind = d.int(0, 3);
     let v: [f64; 3] = match kind {
@@ -163,7 +164,8 @@ fn four_reps_f64(d: &mut Draw) -> Outcome {
     let pt = Point3::from_vec(cv);
     let want = qrot(&u, &v);
     let (m3, m4, b3) = (Matrix3::from(q), Matrix4::from(q), Basis3::from(q));
-    let vl = (v[0] * v[0] + v[1] * v[1] + v[2] * v[2]).sqrt();
+    let vmax = v[0].abs().max(v[1].abs()).max(v[2].abs());
+    let vl = vmax * ((v[0] / vmax).powi(2) + (v[1] / vmax).powi(2) + (v[2] / vmax).powi(2)).sqrt();
     let tol = 32.0 * f64::EPSILON * vl;
     for (name, got) in [
         ("quaternion-mul-f64", q * cv),
@@ -178,7 +180,7 @@ fn four_reps_f64(d: &mut Draw) -> Outcome {
         ("basis3-rotate_vector-f64", b3.rotate_vector(cv)),
         ("basis3-rotate_point-f64", b3.rotate_point(pt).to_vec()),
     ] {
-        let e = ((got.x - want[0]).powi(2) + (got.y - want[1]).powi(2) + (got.z - want[2]).powi(2)).sqrt();
+        let e = (got.x - want[0]).abs().max((got.y - want[1]).abs()).max((got.z - want[2]).abs());
         if !(e <= tol) {
             return Outcome::Fail { sig: name, msg: format!("{} differs from the rotation of v by q by {:e} (|v| = {:e}, tolerance {:e}): {:?} vs {:?}", name, e, vl, tol, got, want) };
         }
